@@ -44,6 +44,17 @@ class PyModel:
             mod = p.stem
             self.modules[mod] = tree
             self.sources[mod] = src
+        # canonical form: a second copy of every module in which small private helpers are inlined at their call sites
+        # (sa/inline.py); rules whose subject may be cut into helpers differently read functions through ifunc()/imethod()
+        import copy as _copy
+        from . import inline
+        self.imodules: Dict[str, ast.Module] = {m: _copy.deepcopy(t) for m, t in self.modules.items()}
+        self.inline_stats = inline.normalise(self.imodules)
+        for mod, tree in self.imodules.items():
+            for n in ast.walk(tree):
+                for c in ast.iter_child_nodes(n):
+                    self.parents[c] = n
+        for mod, tree in self.modules.items():
             for n in ast.walk(tree):
                 for c in ast.iter_child_nodes(n):
                     self.parents[c] = n
@@ -81,13 +92,16 @@ class PyModel:
         return ast.unparse(b)
 
     def loc(self, mod: str, node: ast.AST) -> str:
-        return f"ford/{mod}.py:{getattr(node, 'lineno', 0)}"
+        return f"ford/{mod}.py:{getattr(node, 'orig_lineno', getattr(node, 'lineno', 0))}"
 
     def module_of(self, node: ast.AST) -> str:
         n = node
         while n in self.parents:
             n = self.parents[n]
         for m, t in self.modules.items():
+            if t is n:
+                return m
+        for m, t in self.imodules.items():
             if t is n:
                 return m
         raise AnalysisError("node without module")
@@ -108,6 +122,20 @@ class PyModel:
         if a in self.classes and b in self.classes[a].methods:
             return self.classes[a].methods[b]
         raise AnalysisError(f"function {qual} not found (anchor vanished)")
+
+    def ifunc(self, qual: str) -> ast.FunctionDef:
+        """the canonical (helper-inlined) version of func(qual)"""
+        raw = self.func(qual)
+        mod = self.module_of(raw)
+        cls = self.enclosing_class(raw)
+        for n in self.imodules[mod].body:
+            if cls is None and isinstance(n, ast.FunctionDef) and n.name == raw.name:
+                return n
+            if cls is not None and isinstance(n, ast.ClassDef) and n.name == cls:
+                for m in n.body:
+                    if isinstance(m, ast.FunctionDef) and m.name == raw.name and getattr(m, "orig_lineno", m.lineno) == raw.lineno:
+                        return m
+        raise AnalysisError(f"canonical form of {qual} not found")
 
     def has_func(self, qual: str) -> bool:
         try:
@@ -297,7 +325,7 @@ class PyModel:
             k = ast.unparse(node)
             if k in env:
                 return env[k]
-        if isinstance(node, (ast.Tuple, ast.List)):
+        if isinstance(node, (ast.Tuple, ast.List, ast.Set)):
             out = []
             for e in node.elts:
                 if isinstance(e, ast.Starred):
@@ -340,6 +368,8 @@ class PyModel:
                     return a * b
                 if isinstance(node.op, ast.BitOr) and isinstance(a, dict) and isinstance(b, dict):
                     return {**a, **b}
+                if isinstance(node.op, ast.BitOr) and isinstance(a, (list, tuple)) and isinstance(b, (list, tuple)):
+                    return list(a) + [x for x in b if x not in a]      # set union (sets are modelled as lists)
             except Exception:
                 return U
             return U
@@ -432,7 +462,9 @@ class PyModel:
             if isinstance(node.func, ast.Attribute):
                 recv = ev(node.func.value)
                 m = node.func.attr
-                if recv is not U and isinstance(recv, str) and m in ("join", "format", "lower", "upper", "strip", "replace", "split", "rstrip", "lstrip") \
+                if recv is not U and isinstance(recv, str) and m in ("join", "format", "lower", "upper", "strip", "replace", "split", "rstrip", "lstrip", "splitlines", "casefold",
+                                                                       "title", "capitalize", "startswith", "endswith", "removeprefix", "removesuffix",
+                                                                       "rsplit", "partition", "rpartition", "isalpha", "isidentifier") \
                         and all(a is not U for a in args) and all(v is not U for v in kws.values()) and None not in kws:
                     try:
                         if m == "join":
@@ -512,6 +544,12 @@ class PyModel:
                         fl = kw.value
                 flags = self.eval_flags(fl)
                 if pat is not None and flags is not None:
+                    # effective flags: those given to re.compile plus global inline flags of the pattern, `(?i)...`
+                    try:
+                        import re._parser as _sre
+                        flags |= _sre.parse(pat, flags).state.flags & (re.IGNORECASE | re.VERBOSE | re.DOTALL | re.MULTILINE | re.ASCII)
+                    except Exception:
+                        pass
                     out[f"{owner}.{tname}"] = (pat, flags, value, mod)
 
         def simple_assign(st):
@@ -583,6 +621,28 @@ class PyModel:
             return env.get(name, PyModel._UNKNOWN)
         return PyModel._UNKNOWN
 
+    def eval_at(self, expr: ast.AST, at: ast.AST):
+        """value of a constant expression as seen from the code around `at`: module constants of that module, and class
+        constants reached as `self.NAME` / `cls.NAME` / `Class.NAME` (looked up along the MRO of the enclosing class)"""
+        mod = self.module_of(at)
+        if isinstance(expr, ast.Attribute) and isinstance(expr.value, ast.Name):
+            owner = expr.value.id
+            if owner in ("self", "cls"):
+                owner = self.enclosing_class(at)
+                # a closure: the class of the enclosing method
+                p = at
+                while owner is None and p in self.parents:
+                    p = self.parents[p]
+                    if isinstance(p, ast.ClassDef):
+                        owner = p.name
+            if owner in self.classes:
+                for c in self.mro(owner):
+                    v = self.const_value(c, expr.attr) if c in self.classes else PyModel._UNKNOWN
+                    if v is not PyModel._UNKNOWN:
+                        return v
+                return PyModel._UNKNOWN
+        return self.eval_const(expr, self.module_env(mod))
+
     def str_constant(self, owner: str, name: str) -> Optional[str]:
         """Module-level ('module', NAME) or class-level ('Class', NAME) string constant."""
         v = self.const_value(owner, name)
@@ -619,6 +679,20 @@ class PyModel:
                 parts.append(n.name)
         mod = self.module_of(fn)
         return mod + "." + ".".join(reversed(parts))
+
+    def all_ifunctions(self) -> Iterator[Tuple[str, ast.FunctionDef]]:
+        """functions of the canonical (helper-inlined) program; helpers whose every call was inlined are left out"""
+        dead = self.inline_stats.get("_fully_inlined", set())
+        for mod, tree in self.imodules.items():
+            for n in tree.body:
+                if isinstance(n, (ast.FunctionDef, ast.AsyncFunctionDef)):
+                    if (mod, None, n.name) not in dead:
+                        yield mod, n
+                        yield from ((mod, x) for x in ast.walk(n) if x is not n and isinstance(x, (ast.FunctionDef, ast.AsyncFunctionDef)))
+                elif isinstance(n, ast.ClassDef):
+                    for m in ast.walk(n):
+                        if isinstance(m, (ast.FunctionDef, ast.AsyncFunctionDef)) and (mod, n.name, m.name) not in dead:
+                            yield mod, m
 
     def all_functions(self) -> Iterator[Tuple[str, ast.FunctionDef]]:
         for mod, tree in self.modules.items():
